@@ -202,8 +202,18 @@ def execute_cov(rec, focus):
     def report_check(rep, where, percent=True):
         """report model vs memory"""
         # group live types in registry order
-        rgy = CoverageRegistry.inst()
-        mem_types = rgy.covergroup_types()
+        # the types held in memory, from the live instances themselves (not through the
+        # registry's own accessor): grouped by class in order of first creation, then by
+        # type in order of first appearance
+        mem_types = []
+        by_cls = {}
+        for it in insts:
+            by_cls.setdefault(it.cls, [])
+            t = it.obj.get_model().type_cg
+            if not any(t is x for x in by_cls[it.cls]):
+                by_cls[it.cls].append(t)
+        for c in by_cls:
+            mem_types.extend(by_cls[c])
         if len(rep.covergroups) != len(mem_types):
             viol.append({"inv": "C13.report_content", "cls": "C13.report_content/type_count",
                          "detail": {"where": where, "report": len(rep.covergroups), "memory": len(mem_types)}})
